@@ -764,6 +764,42 @@ func (ex *Exec) index(fr *frame, st *State, x *ssa.Index) []*State {
 
 func (ex *Exec) slice(fr *frame, st *State, x *ssa.Slice) []*State {
 	base := ex.get(fr, st, x.X)
+	// symbolic bounds: split the state over the values the bound can take (bounded by the capacity)
+	for _, bv := range []ssa.Value{x.Low, x.High, x.Max} {
+		if bv == nil {
+			continue
+		}
+		t := ex.get(fr, st, bv).(*term.Term)
+		if _, ok := ex.concreteInt(st, t, true); ok {
+			continue
+		}
+		limit := 0
+		switch b := base.(type) {
+		case StringV:
+			limit = len(b.B)
+		case SliceV:
+			limit = b.Cap
+		case PtrV:
+			limit = int(x.X.Type().Underlying().(*types.Pointer).Elem().Underlying().(*types.Array).Len())
+		}
+		inb := term.Ule(t, term.Const(t.W(), uint64(limit)))
+		if !ex.guardOK(fr, st, inb, x, "slice bounds out of range [symbolic]") {
+			return nil
+		}
+		conds := make([]*term.Term, limit+1)
+		for v := 0; v <= limit; v++ {
+			conds[v] = term.Eq(t, term.Const(t.W(), uint64(v)))
+		}
+		var out []*State
+		for v, s := range ex.splitStates(st, conds, false) {
+			if s != nil {
+				// in this state the register equals v: record it so that it is concrete from here on
+				s.F.Env[bv] = term.Const(t.W(), uint64(v))
+				out = append(out, ex.slice(fr, s, x)...)
+			}
+		}
+		return out
+	}
 	bound := func(v ssa.Value, def int) (int, bool) {
 		if v == nil {
 			return def, true
